@@ -9,9 +9,11 @@ import DitModel.Drv.Constr
 import DitModel.Drv.Diverge
 import DitModel.Drv.Pid
 import DitModel.Drv.Channel
+import DitModel.Drv.Meet
+import DitModel.Drv.Maxent
 open Dit Dit.Drv
 
-def handlers : List (String × (J → Option J)) := basicHandlers ++ simplexHandlers ++ infoHandlers ++ opsHandlers ++ constrHandlers ++ divergeHandlers ++ pidHandlers ++ channelHandlers
+def handlers : List (String × (J → Option J)) := basicHandlers ++ simplexHandlers ++ infoHandlers ++ opsHandlers ++ constrHandlers ++ divergeHandlers ++ pidHandlers ++ channelHandlers ++ meetHandlers ++ maxentHandlers
 
 def answer (line : String) : String :=
   let line := line.trimAscii.toString
